@@ -9,6 +9,10 @@ Decided (structural, each necessary for fairness/productivity):
    (a clause goal always sits behind a Pause), so every recursion through a relation passes a
    suspension that only Engine::step resumes;
  * Anyo::solve re-creates itself only as a clause of a conde.
+ (round 4) operator search kinds: conde/matche/conda/condu/matcha/matchu/anyo/onceo take and
+   return interleaving goals (typed signatures; a DFSGoal casts silently into a Goal context and
+   Conde::solve picks the search by downcast); Conde::from_array / from_vec / from_conjunctions
+   keep one branch per clause; disjunction builders are total folds from `fail`.
 """
 import streams
 import sym
@@ -157,3 +161,10 @@ def run(ctx, fb, cfg):
                 shapes, names, why = C14.CONSTRUCT_TABLE["Closure"]
                 macrolib.check_shape(ctx, R + "K12.closure-suspends", "Closure", a, shapes, names, "the closure body is always wrapped in a conjunction builder, even for a single clause (the conjunction's Pause is what suspends a recursive unfolding)")
     streams.check_engine_delay_iter(ctx, lib, R + "K3.engine-delay")
+    import builders
+
+    builders.check_all(ctx, lib, R + "K6.builders", only=("Disj", "Conj", "InferredConj"))
+    import C13
+
+    C13.check_conde_builder(ctx, lib, R + "K6.conde-builder")
+    streams.check_operator_kinds(ctx, lib, R + "K10.operator-search-kind")
